@@ -10,7 +10,8 @@ precondition satisfied, or a reason tag.  `Props/C17.lean` and
 `Props/C04Sites.lean` prove `uncovered Generated.sites covered = []` by
 `decide`: a site added to the sources (or a checked access turned into an
 unchecked one) has no entry here and breaks that proof.  Removing a site never
-does.  Several entries may share a key; their counts add up.
+does.  Several entries may share a key; their counts add up.  An account with
+fn `*` speaks for a file and kind as a whole (used for the CLI files only).
 
 Reason tags (everything that is not a theorem name):
 
@@ -66,10 +67,12 @@ def covered : List Cover := [
   (inputRs, "CaptureReader::read", "index", 3, "Xt.Props.C09.no_panic_input"),
   (inputRs, "CaptureReader::read", "unchecked_add", 1, "bounded-add"),
   -- ---------------------------------------------------------------- src/main.rs, src/pipecheck.rs (CLI)
-  ("src/main.rs", "InputPath::open", "unsafe_block", 1, "delegated:mmap"),
-  ("src/main.rs", "InputPath::open", "unsafe_call", 1, "delegated:mmap"),
-  ("src/pipecheck.rs", "exit_for_broken_pipe", "unsafe_block", 1, "delegated:libc"),
-  ("src/pipecheck.rs", "exit_for_broken_pipe", "unsafe_call", 2, "delegated:libc"),
+  -- fn `*`: per file and kind, whatever function the site is written in (no theorem is
+  -- attached to a function here; what matters is that there is ONE mmap call, TWO libc calls)
+  ("src/main.rs", "*", "unsafe_block", 1, "delegated:mmap"),
+  ("src/main.rs", "*", "unsafe_call", 1, "delegated:mmap"),
+  ("src/pipecheck.rs", "*", "unsafe_block", 1, "delegated:libc"),
+  ("src/pipecheck.rs", "*", "unsafe_call", 2, "delegated:libc"),
   -- ---------------------------------------------------------------- src/msgpack.rs (model: MsgpackSize, slice C18)
   (msgpackRs, "next_value_size", "cast", 7, "lossless-cast"),
   (msgpackRs, "next_value_size", "index", 7, "Xt.Props.C18.no_panic_msgsize"),
@@ -162,13 +165,31 @@ def covered : List Cover := [
 def sameKey (e : Entry) (c : Cover) : Bool :=
   c.1 == e.1 && c.2.1 == e.2.1 && c.2.2.1 == e.2.2.1
 
+/-- An account with fn `*` speaks for a whole file and kind. -/
+def wildKey (e : Entry) (c : Cover) : Bool :=
+  c.2.1 == "*" && c.1 == e.1 && c.2.2.1 == e.2.2.1
+
 /-- How many sites with the key of `e` the list `cov` accounts for. -/
 def accounted (cov : List Cover) (e : Entry) : Nat :=
   (cov.filter (sameKey e)).foldl (fun n c => n + c.2.2.2.1) 0
 
-/-- The generated entries that `cov` does not (fully) account for. -/
+/-- How many sites of `e`'s file and kind the `*` accounts of `cov` speak for. -/
+def accountedWild (cov : List Cover) (e : Entry) : Nat :=
+  (cov.filter (wildKey e)).foldl (fun n c => n + c.2.2.2.1) 0
+
+/-- The sites of `e`'s file and kind in `gen` that have no account under their own fn. -/
+def looseTotal (gen : List Entry) (cov : List Cover) (e : Entry) : Nat :=
+  (gen.filter fun g => g.1 == e.1 && g.2.2.1 == e.2.2.1 && !cov.any (sameKey g)).foldl (fun n g => n + g.2.2.2) 0
+
+/-- The generated entries that `cov` does not (fully) account for: an entry
+with accounts under its own fn needs their counts to add up to its own; an
+entry without one is pooled with the others of its file and kind against the
+`*` accounts (so that moving such a site to another function of the same file
+changes nothing, and a second one is still detected). -/
 def uncovered (gen : List Entry) (cov : List Cover) : List Entry :=
-  gen.filter fun e => accounted cov e < e.2.2.2
+  gen.filter fun e =>
+    if cov.any (sameKey e) then accounted cov e < e.2.2.2
+    else accountedWild cov e < looseTotal gen cov e
 
 /-- `pre` is a prefix of `s` (on character lists, so that it reduces by `decide`). -/
 def hasPrefix (pre s : String) : Bool := pre.toList.isPrefixOf s.toList
